@@ -36,6 +36,7 @@ type Config struct {
 	Stubs         []string
 	Outside       []string
 	NoNative      bool
+	LazyTimers    bool // timers fire only when the selecting thread would otherwise block
 	MaxTicks      int // how many times a periodic timer (ticker) may fire on one path
 	LazyFP        bool
 	NumTokens     bool // %d of a symbolic integer yields a one-element decimal-number token
@@ -189,6 +190,9 @@ func (p *Path) decide(n int, what string) int {
 		d := p.prefix[i]
 		p.pushDec(d)
 		return d.V
+	}
+	if debugOn {
+		dbg("decide %s n=%d", what, n)
 	}
 	base := append([]Dec(nil), p.decs...)
 	for k := n - 1; k >= 1; k-- {
